@@ -31,6 +31,24 @@ REG = {
         dict(name='c01::p31b4::negate_eq_zero', tier='thorough', t=3600),
         dict(name='c01::p31b4::conversions', tier='thorough', t=3600),
     ],
+    'c08': [
+        dict(name='c08::fq_repr::add_sub', tier='quick', t=900),
+        dict(name='c08::fq_repr::mul2_div2_parity_zero_cmp', tier='quick', t=900),
+        dict(name='c08::fq_repr::shifts_and_num_bits', tier='quick', t=1800),
+        dict(name='c08::fq_repr::endian_io', tier='quick', t=1800),
+        dict(name='c08::fr_repr::add_sub', tier='quick', t=900),
+        dict(name='c08::fr_repr::mul2_div2_parity_zero_cmp', tier='quick', t=900),
+        dict(name='c08::fr_repr::shifts_and_num_bits', tier='quick', t=1800),
+        dict(name='c08::fr_repr::endian_io', tier='quick', t=1800),
+        dict(name='c08::fq::add_double', tier='quick', t=900),
+        dict(name='c08::fq::sub_negate_zero', tier='quick', t=900),
+        dict(name='c08::fq::modulus_literal', tier='quick', t=600),
+        dict(name='c08::fr::add_double', tier='quick', t=900),
+        dict(name='c08::fr::sub_negate_zero', tier='quick', t=900),
+        dict(name='c08::fr::modulus_literal', tier='quick', t=600),
+        dict(name='c08::fq_from_repr_acceptance', tier='quick', t=1800, stubbing=True),
+        dict(name='c08::fr_from_repr_acceptance', tier='quick', t=1800, stubbing=True),
+    ],
 }
 
 SLOTS = int(os.environ.get('VERIF_KANI_JOBS', '8'))
